@@ -3,6 +3,7 @@ import NdonnxVerif.Driver.Heap
 import NdonnxVerif.Driver.Scalar
 import NdonnxVerif.Driver.Reduce
 import NdonnxVerif.Driver.Layout
+import NdonnxVerif.Driver.Build
 import NdonnxVerif.Driver.Index
 /-! Line-protocol driver: one request per line on stdin, one answer per line on stdout. -/
 open Ndx.Drv
@@ -12,6 +13,7 @@ def dispatch (line : String) : String :=
   | [] => "bad-op"
   | cmd :: args =>
     match cmd with
+    | "iface" => cmdIface args
     | "roll" => cmdRoll args
     | "flip" => cmdFlip args
     | "reduce_shape" => cmdReduceShape args
